@@ -2084,6 +2084,10 @@ class PseudoNetCDFFile(PseudoNetCDFSelfReg, object):
                         varo[sliceoi], axis=concatax))
                 newvals = np.concatenate(point_arrays, axis=concatax)
             else:
+                # integers become unit slices so that they are not
+                # broadcast with an index list as numpy advanced indices
+                sliceo = tuple(slice(si, si + 1 or None)
+                               if np.isscalar(si) else si for si in sliceo)
                 newvals = varo[sliceo]
             try:
                 newvaro[...] = newvals
